@@ -225,6 +225,31 @@ fn c14(exe: &str) {
             let mut n = vec![0x0A, 0, 0, 0, 1]; n.extend_from_slice(&b); inputs.push((format!("strict array holding marker 0x{:02X} followed by the 32-bit field {} and three bytes", mk, c), n));
         }
     }
+    // INVALID UTF-8 in string values and property names: texts of 1-, 2-, 3- and 4-byte characters, 0..70 characters long, damaged by a
+    // stray Latin-1 byte at the end, a cut last character or an overwritten byte; every one must come back Ok or Err (no panic in the
+    // decoder or in the error value it builds), as a top-level value, a property name, a property value and an array element
+    {
+        let alphabets: [&[char]; 5] = [&['a', 'Z', '0'], &['é', 'ß', 'Ж'], &['配', '信', 'テ'], &['😀', '𝄞'], &['a', 'é', '配', '😀']];
+        for (ai, al) in alphabets.iter().enumerate() { for n in 0..70usize {
+            let text: String = (0..n).map(|i| al[(i + ai) % al.len()]).collect();
+            let raw = text.as_bytes().to_vec();
+            let mut variants: Vec<Vec<u8>> = vec![];
+            { let mut v = raw.clone(); v.push(0xE9); variants.push(v); }
+            if !raw.is_empty() { let mut v = raw.clone(); v.pop(); variants.push(v); let mut w = raw.clone(); let k = w.len() / 2; w[k] = 0xFF; variants.push(w); let mut x = raw.clone(); x[0] = 0x80; variants.push(x); }
+            for v in variants {
+                if v.len() > 65535 { continue; }
+                let l = (v.len() as u16).to_be_bytes();
+                let mut top = vec![2u8]; top.extend_from_slice(&l); top.extend_from_slice(&v);
+                let mut name = vec![3u8]; name.extend_from_slice(&l); name.extend_from_slice(&v); name.extend_from_slice(&[5, 0, 0, 9]);
+                let mut pval = vec![3u8, 0, 1, b'k']; pval.extend_from_slice(&top); pval.extend_from_slice(&[0, 0, 9]);
+                let mut elem = vec![0x0Au8, 0, 0, 0, 1]; elem.extend_from_slice(&top);
+                for (place, b) in [("a top-level string", top.clone()), ("a property name", name), ("a property value", pval), ("an array element", elem)] {
+                    let r = std::panic::catch_unwind(std::panic::AssertUnwindSafe(|| dec_all(&b).is_ok()));
+                    if r.is_err() { fail(format!("[c14] deserialize panicked on {} of {} bytes that is not valid UTF-8 ({} characters of alphabet {} damaged): {:02x?}", place, v.len(), n, ai, &b[..std::cmp::min(b.len(), 80)])); }
+                }
+            }
+        } }
+    }
     inputs.push(("string declaring 65535 bytes, none present".into(), vec![2, 0xFF, 0xFF]));
     inputs.push(("object property name declaring 65535 bytes".into(), vec![3, 0xFF, 0xFF]));
     for (what, b) in inputs {
